@@ -760,6 +760,24 @@ WITNESSES = [
 ]
 
 
+def gencmp_signal(ctx):
+    """Tie A broken: does the comparator generated from uv__signal_compare still order the signal tree?
+    Evaluates Generated.signal_compare on the 16 keys signum {1,2} x one-shot x loop {0,1} x handle {0,1} (checks/gencmp.py)."""
+    import gencmp
+    keys = [(sg, os_, lp, h) for sg in (1, 2) for os_ in (0, 1) for lp in (0, 1) for h in (0, 1)]
+    b = lambda x: "true" if x else "false"
+    r = gencmp.grid_check(keys, lambda a, c: f"(signal_compare {a[3]} {b(a[1])} {a[2]} {a[0]} {c[3]} {b(c[1])} {c[2]} {c[0]}).map (·.ret)")
+    ctx.count()
+    if r:
+        law, ks, vals = r
+        ctx.violation("signal_compare-order-law",
+                      f"C13: uv__signal_compare as generated from src/unix/signal.c is not a strict total order on "
+                      f"(signum, one-shot, loop, handle) keys ({law}) for {ks}: {vals}; RB_INSERT/RB_NFIND/RB_NEXT of "
+                      f"uv__signal_tree then miss watchers of a signal (fan-out and handler (un)registration break)",
+                      {"gencmp": [list(k) for k in ks]})
+    return bool(r)
+
+
 def run(ctx):
     ctx.trusted += ["RB tree of signal.c = list sorted by uv__signal_compare (pointer order made equal to id order by the harness)",
                     "kernel: raise() delivers synchronously to the calling thread; SA_RESETHAND resets the disposition before the handler runs",
@@ -767,7 +785,7 @@ def run(ctx):
     ctx.assumptions += ["fewer undelivered signals per loop than the self-pipe holds (property text)",
                         "loops are run from one thread in a scripted order (thread identity of callbacks = the loop being run)"]
     ctx.trusted += ["tools/gen_lean.py (clang AST -> Lean for the loop-free kernels signal_compare, signal_start) and UvModel/CSem.lean"]
-    # Tie A: uv__signal_compare / uv__signal_start regenerated from /repo, GenEq/C13 re-proves them = Signal.Key.lt / Signal.sigStart
+    # Tie A: uv__signal_compare / uv__signal_start regenerated from /repo, GenEq/C13 re-proves them = Signal.Key.cmp (+ order laws) / Signal.sigStart
     gen_ok = ctx.gen_lean(need=["C13"])
     lean_ok = ctx.require_lean(["UvModel.GenEq.C13", "UvModel.Props.C13"]) and gen_ok
     exe = ctx.harness("c13_sim", ["harness/c13_sim.c"])
@@ -776,7 +794,9 @@ def run(ctx):
     mexe = ctx.harness("c13_mt", ["harness/c13_mt.c"])
     if ctx.replay:
         rp = json.loads(Path(ctx.replay).read_text())["replay"]
-        if rp.get("mt"):
+        if rp.get("gencmp"):
+            gencmp_signal(ctx)
+        elif rp.get("mt"):
             if mexe: run_mt_case(ctx, mexe, rp["ops"], {})
         else:
             run_case(ctx, exe, rp["ops"], model=not any(l.startswith("at ") for l in rp["ops"]))
@@ -830,6 +850,8 @@ def run(ctx):
     ctx.notes["multi_loop_cases"] = stats.get("_multi", 0)
     ctx.notes["cases_with_RESETHAND_installed"] = stats.get("_reset", 0)
     ctx.notes["cases_with_raise_between_poll_and_closing"] = stats.get("_requeue", 0)
+    if not lean_ok and not ctx.violations:
+        gencmp_signal(ctx)        # Tie A: evaluate the generated tree comparator on a grid
     if (ctx.broken or not lean_ok) and not ctx.violations:
         ctx.log("obligation broken; searching for a failing input with the monitors")
         srng = SplitMix(ctx.seed + 777)
